@@ -89,7 +89,28 @@ func genWOperand(rt *rapid.T, vc *valConfig) *Val {
 		}
 		return vc.leafS(rt, k, false, false)
 	}
-	switch rapid.IntRange(0, 11).Draw(rt, "wk") {
+	switch rapid.IntRange(0, 12).Draw(rt, "wk") {
+	case 12:
+		// operands that are rendered without method dispatch and without a
+		// bad-verb report: empty byte slices, the invalid reflect.Value, and
+		// (outside the fmt-compatible universe) redactables, also wrapped
+		ks := []string{"bytes", "nbytes", "rvzero"}
+		if !vc.fmtCompat {
+			ks = append(ks, "rs", "rb", "rs", "saferv")
+		}
+		switch k := pick(rt, "quietk", ks); k {
+		case "bytes", "nbytes":
+			return &Val{K: k}
+		case "rvzero":
+			return &Val{K: k}
+		case "saferv":
+			return &Val{K: "safe", Sub: []*Val{{K: "rs", Pr: &PrintS{Args: []*Val{vc.leafS(rt, "str", false, false)}}}}}
+		default:
+			return &Val{K: k, Pr: &PrintS{Args: []*Val{vc.leafS(rt, "str", false, false)}}}
+		}
+	// (a reflect.Value holding an error is not drawn: the library returns the
+	// held error, fmt.Errorf wraps nothing; the statement's first and last
+	// sentence disagree about it, see DESIGN §7)
 	case 0:
 		return &Val{K: "nil"}
 	case 1:
